@@ -121,13 +121,17 @@ func runSession(c *fw.Ctx, idx int, r *fw.Rand) {
 	model := map[string][]sut.MsgSnap{} // the store as the harness last saw it
 	known := map[string]bool{}          // names the model ever expected
 	ntx := r.Range(1, 5)
+	sig := ""
 	for t := 0; t < ntx; t++ {
 		if ss.Ended() || ss.Q.ServerClosed() {
 			break
 		}
-		if !runTx(c, r, env, ss, naming, combo, model, known, fail) {
-			return
+		if !runTx(c, r, env, ss, naming, combo, model, known, &sig, fail) {
+			break
 		}
+	}
+	if sig != "" {
+		c.NonTrivial(sig)
 	}
 	c.Sample(map[string]any{"config": combo, "trace_head": head(ss.Trace, 12)})
 }
@@ -141,7 +145,7 @@ func head(t []sut.Exchange, n int) []sut.Exchange {
 
 // runTx plays one transaction; returns false when the session should stop (violation or end).
 func runTx(c *fw.Ctx, r *fw.Rand, env *sut.Env, ss *sut.SMTPSession, naming, combo string,
-	model map[string][]sut.MsgSnap, known map[string]bool, fail func(key, what string)) bool {
+	model map[string][]sut.MsgSnap, known map[string]bool, sig *string, fail func(key, what string)) bool {
 
 	sender := gen.SimpleAddr(r, []string{"sender.test", "origin.example"})
 	rep, err := ss.Cmd("MAIL FROM:<" + sender.Text + ">")
@@ -380,7 +384,7 @@ func runTx(c *fw.Ctx, r *fw.Rand, env *sut.Env, ss *sut.SMTPSession, naming, com
 	c.Count("accepted_not_stored", int64(nonStored))
 	c.Count("transactions", 1)
 	if (expectStore && len(wants) > 0) || nonStored > 0 {
-		c.NonTrivial(combo + "|" + strings.Join(classes, ",") + "|" + endName)
+		*sig += combo + "|" + strings.Join(classes, ",") + "|" + endName + ";"
 	}
 	return ending != 4 && ending != 5
 }
